@@ -122,7 +122,7 @@ def effectTable : List FnRow := [
   ⟨[], [132, 133, 143]⟩,  -- 108 astral.sun.daylight
   ⟨[], [135, 143]⟩,  -- 109 astral.sun.dusk
   ⟨[], []⟩,  -- 110 astral.sun.eccentric_location_earth_orbit
-  ⟨[], [138]⟩,  -- 111 astral.sun.elevation
+  ⟨[], [94, 138]⟩,  -- 111 astral.sun.elevation
   ⟨[], [110, 113, 114, 137]⟩,  -- 112 astral.sun.eq_of_time
   ⟨[], []⟩,  -- 113 astral.sun.geom_mean_anomaly_sun
   ⟨[], []⟩,  -- 114 astral.sun.geom_mean_long_sun
